@@ -121,6 +121,8 @@ class Model:
         self.store = {}  # key -> (text, tag)
         self.counts = {}
         self.lead = ""
+        self.tag = "B:"
+        self.ghost = ()
 
     def tick(self, name):
         self.counts[name] = self.counts.get(name, 0) + 1
@@ -184,7 +186,7 @@ class Model:
         def body():
             self.tick("body")
             head = "\n" * (3 if self.has_page_tag() else 2) if False else ""
-            return self.lead + "B:%s|%s|%s|o[%s]|%s|\n%s" % (v, d("x"), d("y"), n(), b(), anon())
+            return self.lead + self.tag + "%s|%s|%s|o[%s]|%s|\n%s" % (v, d("x"), d("y"), n(), b(), anon())
 
         return self.cached_run("page", "render_body", tag, body)
 
@@ -204,7 +206,19 @@ class World:
         from mako import cache as mcache
         from mako.template import Template
 
+        from mako import codegen
+        from mc import seams
+        import time as _time
+
         self.cfg = cfg
+        # module compile stamps: real time for the Beaker backends (Beaker stamps its entries with time.time()),
+        # a simulated clock for the recording backend
+        self.sm = seams.Seams()
+        if cfg["backend"] == "rec":
+            self.clock = seams.SimClock(1000.0)
+            self.sm.set(codegen, "time", self.clock)
+        else:
+            self.clock = None
         prog = cfg["prog"]
         text, info = build_text(prog)
         self.text = text
@@ -217,6 +231,7 @@ class World:
         cc.STORE.clear()
         del cc.LOG[:]
         cc.PASS_CONTEXT[0] = bool(cfg.get("pass_context"))
+        cc.CLOCK[0] = 1000.0
         _UNIQ[0] += 1
         mask = prog["args"] if prog["args"] != "none" else 0
         targs = {}
@@ -249,9 +264,11 @@ class World:
             self.models.append(Model(prog, info, t.uri))
         self.counts = {}
         self.uncached = None
+        self.kw = kw
+        self.version = [1] * len(self.templates)
 
     def close(self):
-        pass
+        self.sm.restore()
 
     def ctx(self, name):
         c = dict(CONTEXTS[name])
@@ -278,6 +295,7 @@ class World:
                 m.counts = {}
                 del self.cc.LOG[:]
                 m.lead = self.skeleton("")
+                self.current_v = CONTEXTS[cname]["v"]
                 got = t.render(**self.ctx(cname))
                 exp = m.render(CONTEXTS[cname], cname)
                 # the literal text between sections (newlines of the skeleton) comes from an uncached render of the same text
@@ -313,6 +331,29 @@ class World:
             elif kind == "toggle":
                 t.cache_enabled = not t.cache_enabled
                 m.enabled = t.cache_enabled
+            elif kind == "recompile":
+                # the source changed: a new Template under the same URI (same cache id), compiled later
+                from mako.template import Template
+                import time as _time
+
+                if self.clock is not None:
+                    self.clock.now += 5
+                    self.cc.CLOCK[0] = self.clock.now
+                else:
+                    _time.sleep(0.002)
+                self.version[ti] += 1
+                text2 = self.text.replace("B:", "B%d:" % self.version[ti])
+                t2 = Template(text2, uri=t.uri, **self.kw)
+                t2.cache_enabled = t.cache_enabled
+                self.templates[ti] = t2
+                m2 = Model(m.prog, m.info, t.uri)
+                m2.enabled = m.enabled
+                m2.tag = "B%d:" % self.version[ti]
+                m2.lead = m.lead
+                # ghost: what the predecessor had stored.  The model never uses it (those entries must not be served),
+                # but it keeps "recompiled over a filled cache" distinct from "recompiled over an empty one" in the search
+                m2.ghost = tuple(sorted(m.store))
+                self.models[ti] = m2  # entries of the predecessor are never served to the recompiled template
         except BaseException as e:  # noqa
             viols.append(("%s:exception:%s" % (kind, type(e).__name__), "the operation succeeds", "no exception", "%s: %s" % (type(e).__name__, str(e)[:150])))
             out = kind + ":exception"
@@ -326,7 +367,7 @@ class World:
 
             t = Template(self.text.replace(' cached="True"', ""))
             o = t.render(tick=lambda n: "", **CONTEXTS["c1"])
-            self.uncached = o[: o.index("B:")]
+            self.uncached = o[: o.index("B:")]  # the literal newlines in front of the body text
         return self.uncached + exp_body
 
     def check_backend_args(self, m, viols):
@@ -350,6 +391,8 @@ class World:
             if self.cfg.get("pass_context"):
                 if ctx is None:
                     viols.append(("backend:context-missing", "the backend receives the rendering context when it asks for it", "context", "absent"))
+                elif ctx.get("v") != self.current_v:
+                    viols.append(("backend:context-stale", "the backend receives the context of the render in progress", "v=%s" % self.current_v, "v=%s" % ctx.get("v")))
             elif ctx is not None:
                 viols.append(("backend:context-unasked", "the context is passed only when the backend asks for it", "absent", "context"))
             if kw2 != exp or any(type(kw2[k]) is not type(exp[k]) for k in exp):
@@ -391,11 +434,13 @@ def events(cfg):
                     ev.append(("get", ti, firstkey[s_]))
                     break
             ev.append(("toggle", ti))
+            if cfg["backend"] != "dogpile" and not cfg.get("norecompile"):
+                ev.append(("recompile", ti))
     return ev
 
 
 def key_of(w):
-    return tuple((tuple(sorted((k, v[1] if v[1] == "set" else v[0]) for k, v in m.store.items())), m.enabled) for m in w.models)
+    return tuple(w.version) + tuple((tuple(sorted((k, v[1] if v[1] == "set" else v[0]) for k, v in m.store.items())), m.enabled, m.ghost) for m in w.models)
 
 
 def initial_key(cfg):
@@ -409,6 +454,8 @@ def initial_key(cfg):
 def expand(cfg, hist):
     out = []
     for ev in events(cfg):
+        if ev[0] == "recompile" and any(h[0] == "recompile" for h in hist):
+            continue  # one recompilation per history keeps the state space finite
         w = World(cfg)
         try:
             for h in hist:
@@ -442,6 +489,8 @@ def configs(tier):
             if prog["args"] != "none" and be != "rec":
                 continue
             if be in ("beaker-file", "dogpile") and len(prog["cached"]) > 2:
+                continue
+            if tier == "quick" and be != "rec" and (len(prog["cached"]) > 1 or prog["flags"]):
                 continue
             cfgs.append({"prog": prog, "backend": be, "max_depth": 30})
             if be == "rec" and prog["args"] != "none":
